@@ -229,11 +229,14 @@ class Check:
                     print(f'KNOWN-FINDING: property={self.pid} {hit.split(" ", 1)[1] if " " in hit else hit}')
                     printed.add(hit)
                 self.known_hits.append(v)
-                if v.get('replayed') is False:
-                    # a listed finding is a defect shown against the real code: if the native run no longer shows it, say so
-                    self.inconclusive.append(f'known finding {v["key"]} did not reproduce natively')
             else:
                 fresh_viol.append(v)
+        # a listed finding is a defect shown against the real code: if no witness of that shape reproduces natively any more, say so
+        # (one reproduction per listed shape is required; native runs that involve a second thread may individually miss their window)
+        for key in sorted({v['key'] for v in self.known_hits}):
+            hits = [v for v in self.known_hits if v['key'] == key]
+            if not any(v.get('replayed') for v in hits) and any(v.get('replayed') is False for v in hits):
+                self.inconclusive.append(f'known finding {key} did not reproduce natively')
         code = 0
         if self.replay_mismatch:
             code = 2
